@@ -13,7 +13,7 @@
                    rerr: 0 none | close code | 1 exception without a close code
      events        chronological: [ev |-> "call" | "end", id, how]   how: returned|cancelled|raised
 
-   Phase 1  events        call/end discipline; nothing accepted after close() returned
+   Phase 1  events        call/end discipline; no data frame accepted after close() returned
    Phase 2  wire          the WsFrames reference reader parses cfg.wire (one unit per step):
                           no RFC 6455 violation, FIN set, mask bit = cfg.mask, minimal length
                           encoding, RSV1 never on control frames (reference rule) and only on
@@ -22,7 +22,7 @@
                           frame k of the wire is message k of the reader
 
    Clauses: CallProtocol, AcceptedAfterClose, WireInvalid:<rule>, WireFragmented, MaskBit,
-   LengthNotMinimal, Rsv1Unexpected, WireTruncated, ReaderError, PayloadCorrupted,
+   LengthNotMinimal, Rsv1Unexpected, DeflateTailNotRemoved, SendFailed, CallNeverEnded, WireTruncated, ReaderError, PayloadCorrupted,
    UnknownMessage, Duplicate, PerSenderOrder, Lost, SentAlthoughRaised, FrameCountMismatch,
    WireTypeMismatch, WirePayloadMismatch,
    and, each under its own name so that a known finding can match exactly:
@@ -31,28 +31,30 @@
      DataAfterCloseOnWire          a data frame was written after the Close frame            *)
 EXTENDS WsFrames, TraceBatch
 
-VARIABLES tid, l, phase, status, closed, late, r, frames, bad
+VARIABLES tid, l, phase, status, closed, ccall, late, r, frames, bad
 
-tvars == <<tid, l, phase, status, closed, late, r, frames, bad>>
+tvars == <<tid, l, phase, status, closed, ccall, late, r, frames, bad>>
 
 Sent(t) == Cfg(t).sent
 NSent(t) == Len(Cfg(t).sent)
 WireC == [compress |-> TRUE, decode |-> FALSE, max |-> 0]
 \* framing only: the deflate payload is opaque here (the round trip is judged in phase 3)
+\* (its `out` is the last 4 bytes of the compressed payload, for the tail rule of RFC 7692 7.2.1)
 DummyInfl(k, full) == [has |-> TRUE, inp |-> full \o DeflateTail, ok |-> TRUE, outlen |-> 0,
-                       utf8 |-> TRUE, out |-> <<>>]
+                       utf8 |-> TRUE,
+                       out |-> SubSeq(full, IF Len(full) > 4 THEN Len(full) - 3 ELSE 1, Len(full))]
 
 TInit ==
     /\ tid \in 1..NTraces
     /\ l = 0 /\ phase = "events"
     /\ status = [i \in 1..NSent(tid) |-> "none"]
-    /\ closed = FALSE /\ late = {}
+    /\ closed = FALSE /\ ccall = FALSE /\ late = {}
     /\ r = Init0 /\ frames = <<>> /\ bad = ""
     /\ Verdict(tid, 0, "", <<>>)
 
 Stop(clause, info) ==
     /\ bad' = clause
-    /\ UNCHANGED <<tid, l, phase, status, closed, late, r, frames>>
+    /\ UNCHANGED <<tid, l, phase, status, closed, ccall, late, r, frames>>
     /\ Verdict(tid, l, clause, info)
 
 (* ------------------------------------------------------------ phase 1: events -- *)
@@ -61,18 +63,21 @@ EventStep ==
     /\ IF l = NEvents(tid) /\ \E i \in 1..NSent(tid) : status[i] = "called" THEN Stop("CallNeverEnded", <<>>)
        ELSE IF l = NEvents(tid) THEN
           /\ phase' = IF Cfg(tid).wirefull THEN "wire" ELSE "final"
-          /\ UNCHANGED <<tid, l, status, closed, late, r, frames, bad>>
+          /\ UNCHANGED <<tid, l, status, closed, ccall, late, r, frames, bad>>
           /\ Verdict(tid, l, "", <<>>)
        ELSE \E e \in {Events(tid)[l + 1]} :
           LET m == Sent(tid)[e.id]
               clause == IF e.ev = "call" /\ status[e.id] # "none" THEN "CallProtocol"
                         ELSE IF e.ev = "end" /\ status[e.id] # "called" THEN "CallProtocol"
-                        ELSE IF e.ev = "end" /\ e.how = "returned" /\ m.op # 8 /\ e.id \in late THEN "AcceptedAfterClose"
+                        ELSE IF e.ev = "end" /\ e.how = "returned" /\ m.op \in {1, 2} /\ e.id \in late THEN "AcceptedAfterClose"
+                        \* send_frame may refuse a message only once the connection is being closed
+                        ELSE IF e.ev = "end" /\ e.how = "raised" /\ ~ccall THEN "SendFailed"
                         ELSE ""
           IN IF clause # "" THEN Stop(clause, <<e.id>>)
              ELSE /\ status' = [status EXCEPT ![e.id] = IF e.ev = "call" THEN "called" ELSE e.how]
                   /\ closed' = (closed \/ (e.ev = "end" /\ m.op = 8))
                   /\ late' = IF e.ev = "call" /\ closed THEN late \cup {e.id} ELSE late
+                  /\ ccall' = (ccall \/ (e.ev = "call" /\ m.op = 8))
                   /\ l' = l + 1
                   /\ UNCHANGED <<tid, phase, r, frames, bad>>
                   /\ Verdict(tid, l + 1, "", <<>>)
@@ -80,7 +85,7 @@ EventStep ==
 (* -------------------------------------------------------------- phase 2: wire --- *)
 FrameRec(rr, out) ==
     [op |-> out.m.t, rsv1 |-> rr.rsv1, len |-> rr.need,
-     data |-> IF ~rr.rsv1 /\ rr.need <= 256 THEN out.m.data ELSE <<>>,
+     data |-> IF rr.rsv1 \/ rr.need <= 256 THEN out.m.data ELSE <<>>,   \* compressed: last 4 bytes
      code |-> out.m.code]
 
 WireStep ==
@@ -90,7 +95,7 @@ WireStep ==
        IN IF ~CanStep(r, n) THEN
              IF r.pos # n \/ r.ph # "H" THEN Stop("WireTruncated", <<r.pos, n>>)
              ELSE /\ phase' = "final"
-                  /\ UNCHANGED <<tid, l, status, closed, late, r, frames, bad>>
+                  /\ UNCHANGED <<tid, l, status, closed, ccall, late, r, frames, bad>>
                   /\ Verdict(tid, l, "", <<>>)
           ELSE \E st \in {Step(r, S, n, WireC, DummyInfl, FALSE)} :
              LET rr == st.r
@@ -104,7 +109,7 @@ WireStep ==
              IN IF clause # "" THEN Stop(clause, <<rr.hstart, rr.nframes>>)
                 ELSE /\ r' = rr
                      /\ frames' = IF st.out.k = "msg" THEN Append(frames, FrameRec(r, st.out)) ELSE frames
-                     /\ UNCHANGED <<tid, l, phase, status, closed, late, bad>>
+                     /\ UNCHANGED <<tid, l, phase, status, closed, ccall, late, bad>>
                      /\ Verdict(tid, l, "", <<>>)
 
 (* ------------------------------------------------------------- phase 3: final --- *)
@@ -152,6 +157,7 @@ RunClause2(run, ids) ==
                 (frames[k].len # recv[k].key.len \/ (frames[k].len <= 256 /\ frames[k].data # recv[k].key.small))
          THEN "WirePayloadMismatch"
     ELSE IF \E k \in 1..n : frames[k].rsv1 /\ ~(S[ids[k]].ovr > 0 \/ Cfg(tid).compress > 0) THEN "Rsv1Unexpected"
+    ELSE IF \E k \in 1..n : frames[k].rsv1 /\ frames[k].data = DeflateTail THEN "DeflateTailNotRemoved"
     ELSE ""
 
 RunClause(run) == One({RunClause2(run, ids) : ids \in {Assign(run.recv, 1, <<>>)}})
@@ -167,7 +173,7 @@ FinalStep ==
                      ELSE ""
        IN /\ bad' = clause
           /\ phase' = "done"
-          /\ UNCHANGED <<tid, l, status, closed, late, r, frames>>
+          /\ UNCHANGED <<tid, l, status, closed, ccall, late, r, frames>>
           /\ Verdict(tid, l, clause,
                      IF bads # {} THEN <<runs[CHOOSE k \in bads : \A j \in bads : k <= j].seg>> ELSE <<>>)
 
